@@ -22,6 +22,8 @@ let () =
                 | "stor" -> M_storage.handle cmd args
                 | "conc" -> M_conc.handle cmd args
                 | "derive" -> M_derive.handle cmd args
+                | "server" -> M_server.handle cmd args
+                | "paths" -> M_paths.handle cmd args
                 | _ -> failwith ("unknown module " ^ m))
              | _ -> failwith "bad line"
            with
